@@ -1,4 +1,5 @@
-(* DepLoad_proofs.v -- lemmas about DepLoad.v (property C15, concurrent loading of a dependency's outputs).
+(* DepLoad_proofs.v -- lemmas about DepLoad.v (property C15, concurrent loading of a dependency's outputs,
+   with the per-dependency lock of the executor and with lost blobs).
    The theorems restated in properties/C15_depload.v are at the end. *)
 From Coq Require Import Arith Bool List Lia.
 Import ListNotations.
@@ -27,6 +28,9 @@ Proof.
   - reflexivity.
 Qed.
 
+Lemma memb_cons : forall j i l, memb j (i :: l) = Nat.eqb j i || memb j l.
+Proof. intros j i l. reflexivity. Qed.
+
 Lemma all_done_spec : forall n done, all_done n done = true <-> (forall j, j < n -> In j done).
 Proof.
   intros n done. unfold all_done. rewrite forallb_forall. split.
@@ -41,47 +45,82 @@ Proof.
   - intros -> j Hj. lia.
 Qed.
 
-(* ------------------------------------------------------------------ the steps of the real protocol, once *)
-Lemma step_cases : forall n s t k s',
-  step VCorrect n s (t, k) = Some s' ->
-  (k = SCheckFlag /\ pcs s t = PCheckFlag /\ s' = set_pc s t (if flag s then PRunCmd else PLoadResult)) \/
-  (k = SLoadResult /\ pcs s t = PLoadResult /\ s' = set_pc s t PLock) \/
-  (k = SLock /\ pcs s t = PLock /\ lock s = None /\
-     s' = mkState (flag s) (Some t) (files s) (upd (pcs s) t PRecheck) (requested s) (restores s) (obs s)) \/
-  (k = SRecheck /\ pcs s t = PRecheck /\ s' = set_pc s t (if flag s then PUnlock else PValidate)) \/
-  (k = SValidate /\ pcs s t = PValidate /\ s' = set_pc s t (if all_done n [] then PSetFlag else PRestore [])) \/
-  (exists i done, k = SRestore i /\ pcs s t = PRestore done /\ i < n /\ ~ In i done /\
-     s' = mkState (flag s) (lock s) (upd (files s) i Current)
-                  (upd (pcs s) t (if all_done n (i :: done) then PSetFlag else PRestore (i :: done)))
-                  (requested s) ((t, i) :: restores s) (obs s)) \/
-  (k = SSetFlag /\ pcs s t = PSetFlag /\
-     s' = mkState true (lock s) (files s) (upd (pcs s) t PUnlock) (requested s) (restores s) (obs s)) \/
-  (k = SUnlock /\ pcs s t = PUnlock /\
-     s' = mkState (flag s) None (files s) (upd (pcs s) t PRunCmd) (requested s) (restores s) (obs s)) \/
-  (k = SRunCmd /\ pcs s t = PRunCmd /\
-     s' = mkState (flag s) (lock s) (files s) (upd (pcs s) t PDone) (requested s) (restores s)
-                  ((t, observe n s) :: obs s)).
+Lemma map_snd_pair : forall (t : nat) (l : list nat), map snd (map (pair t) l) = l.
+Proof. intros t l. induction l as [|a l IH]; [reflexivity|]. cbn [map snd]. now rewrite IH. Qed.
+
+(* every projection of every one-field update *)
+Ltac sp := cbn [flag olock lock files pcs requested missing restores reruns obs wrote
+                set_pc set_flag set_olock set_lock set_files set_requested log_restore log_rerun log_obs log_wrote].
+Ltac sp_in H := cbn [flag olock lock files pcs requested missing restores reruns obs wrote
+                set_pc set_flag set_olock set_lock set_files set_requested log_restore log_rerun log_obs log_wrote] in H.
+
+(* ------------------------------------------------------------------ the steps of the repaired protocol, once *)
+Inductive step_shape (n : nat) (s : state) (t : nat) : stepk -> state -> Prop :=
+| sh_start : pcs s t = PStart -> step_shape n s t SStart (set_pc s t POuterLock)
+| sh_olock : pcs s t = POuterLock -> olock s = None ->
+    step_shape n s t SOuterLock (set_pc (set_olock s (Some t)) t PCheckFlag)
+| sh_check : pcs s t = PCheckFlag ->
+    step_shape n s t SCheckFlag (set_pc s t (if flag s then POuterUnlock else PLoadResult))
+| sh_load : pcs s t = PLoadResult -> step_shape n s t SLoadResult (set_pc s t PLock)
+| sh_lock : pcs s t = PLock -> lock s = None -> step_shape n s t SLock (set_pc (set_lock s (Some t)) t PRecheck)
+| sh_recheck : pcs s t = PRecheck -> step_shape n s t SRecheck (set_pc s t (if flag s then PUnlock else PValidate))
+| sh_validate : pcs s t = PValidate ->
+    step_shape n s t SValidate (set_pc s t (if all_done n [] then PSetFlag else PRestore []))
+| sh_fail : forall i done, pcs s t = PRestore done -> i < n -> ~ In i done -> missing s i = true ->
+    step_shape n s t (SRestore i) (set_pc (set_flag s (flag s)) t PUnlockF)
+| sh_restore : forall i done, pcs s t = PRestore done -> i < n -> ~ In i done -> missing s i = false ->
+    step_shape n s t (SRestore i)
+      (set_pc (log_restore (set_files s (upd (files s) i Current)) t i) t
+              (if all_done n (i :: done) then PSetFlag else PRestore (i :: done)))
+| sh_setflag : pcs s t = PSetFlag -> step_shape n s t SSetFlag (set_pc (set_flag s true) t PUnlock)
+| sh_unlock : pcs s t = PUnlock -> step_shape n s t SUnlock (set_pc (set_lock s None) t POuterUnlock)
+| sh_unlockf : pcs s t = PUnlockF -> step_shape n s t SUnlock (set_pc (set_lock s None) t PRerunStart)
+| sh_rerun : pcs s t = PRerunStart ->
+    step_shape n s t SRerunStart
+      (set_pc (log_rerun (set_files s (tear n (files s))) t) t (if all_done n [] then PComplete else PRerun []))
+| sh_write : forall i done, pcs s t = PRerun done -> i < n -> ~ In i done ->
+    step_shape n s t (SRerunWrite i)
+      (set_pc (set_files s (upd (files s) i Current)) t (if all_done n (i :: done) then PComplete else PRerun (i :: done)))
+| sh_complete : pcs s t = PComplete -> lock s = None ->
+    step_shape n s t SComplete (set_pc (log_wrote (set_flag s true) t (observe n s)) t POuterUnlock)
+| sh_ounlock : pcs s t = POuterUnlock -> step_shape n s t SOuterUnlock (set_pc (set_olock s None) t PRunCmd)
+| sh_cmd : pcs s t = PRunCmd -> step_shape n s t SRunCmd (set_pc (log_obs s t (observe n s)) t PDone).
+
+Lemma guard_spec : forall i n done, Nat.ltb i n && negb (memb i done) = true -> i < n /\ ~ In i done.
 Proof.
-  intros n s t k s' H. unfold step in H. cbn [fst snd] in H.
-  destruct k as [| | | | |i| | |]; destruct (pcs s t) as [| | | | |done| | | |] eqn:Ep; try discriminate H.
-  - injection H as <-. left. auto.
-  - injection H as <-. right; left. auto.
-  - destruct (lock s) eqn:El; [discriminate H|]. injection H as <-. do 2 right; left. auto.
-  - injection H as <-. do 3 right; left. auto.
-  - injection H as <-. do 4 right; left. auto.
-  - destruct (Nat.ltb i n && negb (memb i done)) eqn:Eg; [|discriminate H]. injection H as <-.
-    apply andb_true_iff in Eg. destruct Eg as [Hlt Hm]. apply Nat.ltb_lt in Hlt.
-    apply negb_true_iff in Hm. apply memb_false in Hm.
-    do 5 right; left. exists i, done. auto.
-  - injection H as <-. do 6 right; left. auto.
-  - injection H as <-. do 7 right; left. auto.
-  - injection H as <-. do 8 right. auto.
+  intros i n done Eg. apply andb_true_iff in Eg. destruct Eg as [Hlt Hm]. apply Nat.ltb_lt in Hlt.
+  apply negb_true_iff in Hm. apply memb_false in Hm. now split.
+Qed.
+
+Lemma step_cases : forall n s t k s', step VCorrect n s (t, k) = Some s' -> step_shape n s t k s'.
+Proof.
+  intros n s t k s' H. unfold step in H. cbn [fst snd outer_locked after_validate after_setflag after_restores flag_after_failure] in H.
+  destruct k as [| | | | | | |i| | | |i| | |]; destruct (pcs s t) as [| | | | | | |done| | | | |done| | | |] eqn:Ep;
+    try discriminate H.
+  - injection H as <-. now constructor.
+  - destruct (olock s) eqn:El; [discriminate H|]. injection H as <-. now constructor.
+  - injection H as <-. now constructor.
+  - injection H as <-. now constructor.
+  - destruct (lock s) eqn:El; [discriminate H|]. injection H as <-. now constructor.
+  - injection H as <-. now constructor.
+  - injection H as <-. now constructor.
+  - destruct (Nat.ltb i n && negb (memb i done)) eqn:Eg; [|discriminate H]. destruct (guard_spec _ _ _ Eg) as [Hi Hnd].
+    destruct (missing s i) eqn:Em; injection H as <-; [now apply sh_fail with done|now apply sh_restore].
+  - injection H as <-. now constructor.
+  - injection H as <-. now constructor.
+  - injection H as <-. now constructor.
+  - injection H as <-. now constructor.
+  - destruct (Nat.ltb i n && negb (memb i done)) eqn:Eg; [|discriminate H]. destruct (guard_spec _ _ _ Eg) as [Hi Hnd].
+    injection H as <-. now apply sh_write.
+  - destruct (lock s) eqn:El; [discriminate H|]. injection H as <-. now constructor.
+  - injection H as <-. now constructor.
+  - injection H as <-. now constructor.
 Qed.
 
 Ltac step_inv H :=
   apply step_cases in H;
-  destruct H as [(-> & Hpc & ->)|[(-> & Hpc & ->)|[(-> & Hpc & Hlk & ->)|[(-> & Hpc & ->)|[(-> & Hpc & ->)|
-                [(i0 & done0 & -> & Hpc & Hi0 & Hnd0 & ->)|[(-> & Hpc & ->)|[(-> & Hpc & ->)|(-> & Hpc & ->)]]]]]]]].
+  destruct H as [Hpc|Hpc Hol|Hpc|Hpc|Hpc Hlk|Hpc|Hpc|i0 done0 Hpc Hi0 Hnd0 Hmiss|i0 done0 Hpc Hi0 Hnd0 Hmiss
+                |Hpc|Hpc|Hpc|Hpc|i0 done0 Hpc Hi0 Hnd0|Hpc Hlk|Hpc|Hpc].
 
 (* look through an update of a function at the point u *)
 Ltac upd_at u t H :=
@@ -93,148 +132,349 @@ Ltac upd_goal u t :=
   destruct (Nat.eq_dec u t) as [->|Hne];
   [rewrite upd_same | rewrite (upd_other _ _ _ _ _ Hne)].
 
-(* ------------------------------------------------------------------ the invariant of the real protocol *)
-(* between the re-check of the flag under the lock and SetFlag *)
-Definition before_setflag (p : pc) : bool :=
-  match p with PValidate | PRestore _ | PSetFlag => true | _ => false end.
+(* ------------------------------------------------------------------ the invariant of the repaired protocol *)
+(* the holder of the outer lock found the flag false and has not set it yet *)
+Definition working (p : pc) : bool :=
+  match p with
+  | PLoadResult | PLock | PRecheck | PValidate | PRestore _ | PSetFlag | PUnlockF | PRerunStart | PRerun _ | PComplete => true
+  | _ => false
+  end.
+(* the flag was seen or set true *)
+Definition flagged (p : pc) : bool := match p with PUnlock | POuterUnlock | PRunCmd => true | _ => false end.
+(* under the outer lock, before the first restore *)
+Definition pre_restore (p : pc) : bool :=
+  match p with PCheckFlag | PLoadResult | PLock | PRecheck | PValidate => true | _ => false end.
 
-Lemma before_setflag_locked : forall p, before_setflag p = true -> in_locked_region p = true.
+Lemma locked_outer : forall p, in_locked_region p = true -> in_outer_region p = true.
+Proof. intros p. destruct p; cbn; intros H; try discriminate H; reflexivity. Qed.
+Lemma working_outer : forall p, working p = true -> in_outer_region p = true.
+Proof. intros p. destruct p; cbn; intros H; try discriminate H; reflexivity. Qed.
+Lemma pre_restore_outer : forall p, pre_restore p = true -> in_outer_region p = true.
+Proof. intros p. destruct p; cbn; intros H; try discriminate H; reflexivity. Qed.
+Lemma rerunning_outer : forall p, rerunning p = true -> in_outer_region p = true.
 Proof. intros p. destruct p; cbn; intros H; try discriminate H; reflexivity. Qed.
 
-Record Inv (n k : nat) (s : state) : Prop := mkInv {
-  inv_flag : flag s = true -> forall i, i < n -> files s i = Current;
+Definition file_of_log (l : list (nat * nat)) (i : nat) : fstate := if memb i (map snd l) then Current else Stale.
+
+Record Inv (n k : nat) (miss : nat -> bool) (s : state) : Prop := mkInv {
+  inv_oregion : forall t, in_outer_region (pcs s t) = true -> olock s = Some t;
+  inv_oholder : forall t, olock s = Some t -> in_outer_region (pcs s t) = true;
   inv_region : forall t, in_locked_region (pcs s t) = true -> lock s = Some t;
   inv_holder : forall t, lock s = Some t -> in_locked_region (pcs s t) = true;
-  inv_noflag : forall t, before_setflag (pcs s t) = true -> flag s = false;
-  inv_restore : forall t done, pcs s t = PRestore done ->
-      all_done n done = false /\ forall i, In i done -> files s i = Current;
-  inv_setflag : forall t, pcs s t = PSetFlag -> forall i, i < n -> files s i = Current;
-  inv_after : forall t, pcs s t = PUnlock \/ pcs s t = PRunCmd -> flag s = true;
-  inv_obs : forall t o, In (t, o) (obs s) -> saw_all_current n o = true;
   inv_outside : forall t, k <= t -> pcs s t = PDone;
+  inv_missing : missing s = miss;
+  inv_noflag : forall t, working (pcs s t) = true -> flag s = false;
+  inv_after : forall t, flagged (pcs s t) = true -> flag s = true;
+  inv_flag : flag s = true -> forall i, i < n -> files s i = Current;
+  inv_pristine : forall t, pre_restore (pcs s t) = true -> flag s = false -> restores s = [] /\ reruns s = [];
+  inv_idle : olock s = None -> flag s = false -> restores s = [] /\ reruns s = [];
+  inv_restore : forall t done, pcs s t = PRestore done ->
+      all_done n done = false /\ restores s = map (pair t) done /\ reruns s = [];
+  inv_files : reruns s = [] -> forall i, files s i = file_of_log (restores s) i;
+  inv_log : forall t i, In (t, i) (restores s) -> i < n /\ missing s i = false;
+  inv_once : NoDup (map snd (restores s));
+  inv_setflag : forall t, pcs s t = PSetFlag -> forall i, i < n -> files s i = Current;
+  inv_rerun : forall t done, pcs s t = PRerun done ->
+      all_done n done = false /\ reruns s <> [] /\ forall i, In i done -> files s i = Current;
+  inv_complete : forall t, pcs s t = PComplete -> forall i, i < n -> files s i = Current;
+  inv_reruns : length (reruns s) <= 1;
+  inv_acct : reruns s <> [] -> flag s = true \/ exists t, rerunning (pcs s t) = true;
+  inv_obs : forall t o, In (t, o) (obs s) -> saw_all_current n o = true;
+  inv_wrote : forall t o, In (t, o) (wrote s) -> saw_all_current n o = true;
   inv_done : forall t, t < k -> pcs s t = PDone -> exists o, In (t, o) (obs s);
-  inv_log : forall t i, In (t, i) (restores s) -> i < n /\
-      (flag s = true \/
-       exists u, lock s = Some u /\ (pcs s u = PSetFlag \/ exists done, pcs s u = PRestore done /\ In i done));
-  inv_files : forall i, files s i = Current <-> exists t, In (t, i) (restores s);
-  inv_once : NoDup (map snd (restores s))
+  inv_torn : forall i, files s i = Torn -> i < n /\ exists t done, pcs s t = PRerun done /\ ~ In i done
 }.
 
-Lemma inv_init : forall n k, Inv n k (init k).
+Lemma inv_init : forall n k miss, Inv n k miss (init k miss).
 Proof.
-  intros n k. constructor; cbn [init flag lock files pcs obs restores map].
+  intros n k miss. constructor; cbn [init flag olock lock files pcs missing restores reruns obs wrote map length].
+  - intros t. destruct (Nat.ltb t k); discriminate.
   - discriminate.
   - intros t. destruct (Nat.ltb t k); discriminate.
   - discriminate.
+  - intros t Ht. destruct (Nat.ltb_spec t k) as [H|H]; [lia|reflexivity].
+  - reflexivity.
+  - intros t. destruct (Nat.ltb t k); discriminate.
+  - intros t. destruct (Nat.ltb t k); discriminate.
+  - discriminate.
+  - intros t. destruct (Nat.ltb t k); discriminate.
+  - now split.
+  - intros t done. destruct (Nat.ltb t k); discriminate.
+  - reflexivity.
+  - intros t i [].
+  - constructor.
   - intros t. destruct (Nat.ltb t k); discriminate.
   - intros t done. destruct (Nat.ltb t k); discriminate.
   - intros t. destruct (Nat.ltb t k); discriminate.
-  - intros t. destruct (Nat.ltb t k); intros [H|H]; discriminate H.
+  - lia.
+  - intros H. now contradiction H.
   - intros t o [].
-  - intros t Ht. destruct (Nat.ltb_spec t k) as [H|H]; [lia|reflexivity].
+  - intros t o [].
   - intros t Ht. destruct (Nat.ltb_spec t k) as [H|H]; [discriminate|lia].
-  - intros t i [].
-  - intros i. split; [discriminate|intros [t []]].
-  - constructor.
+  - discriminate.
 Qed.
 
-Lemma pres_flag : forall n k s e s', Inv n k s -> step VCorrect n s e = Some s' ->
-  flag s' = true -> forall i, i < n -> files s' i = Current.
+(* at most one task is between OuterLock and OuterUnlock *)
+Lemma excl : forall n k miss s t u, Inv n k miss s ->
+  in_outer_region (pcs s t) = true -> in_outer_region (pcs s u) = true -> t = u.
 Proof.
-  intros n k s [t st] s' I H. step_inv H; cbn [flag files set_pc]; intros Hf j Hj;
-    try (now apply (inv_flag _ _ _ I)).
-  - unfold upd. destruct (Nat.eqb j i0); [reflexivity|]. now apply (inv_flag _ _ _ I).
-  - now apply (inv_setflag _ _ _ I t).
+  intros n k miss s t u I Ht Hu. apply (inv_oregion _ _ _ _ I) in Ht. apply (inv_oregion _ _ _ _ I) in Hu.
+  rewrite Ht in Hu. now injection Hu.
 Qed.
 
-Lemma pres_region : forall n k s e s', Inv n k s -> step VCorrect n s e = Some s' ->
+(* facts about the acting task t, from its pc *)
+Ltac own I :=
+  match goal with
+  | Hpc : pcs ?s ?t = _ |- _ =>
+      try (assert (Hown : olock s = Some t) by (apply (inv_oregion _ _ _ _ I); rewrite Hpc; reflexivity));
+      try (assert (Hlown : lock s = Some t) by (apply (inv_region _ _ _ _ I); rewrite Hpc; reflexivity));
+      try (assert (Hnf : flag s = false) by (apply (inv_noflag _ _ _ _ I t); rewrite Hpc; reflexivity));
+      try (assert (Hfl : flag s = true) by (apply (inv_after _ _ _ _ I t); rewrite Hpc; reflexivity))
+  end.
+
+(* u <> t, both in the outer region: impossible *)
+Ltac by_excl I :=
+  match goal with
+  | Hne : ?u <> ?t, Hpc : pcs ?s ?t = _ |- _ =>
+      exfalso; apply Hne; apply (excl _ _ _ s u t I);
+      [first [assumption | apply locked_outer; assumption | apply working_outer; assumption
+             | apply pre_restore_outer; assumption | apply rerunning_outer; assumption
+             | match goal with Hu : pcs s u = _ |- _ => rewrite Hu; reflexivity end]
+      | rewrite Hpc; reflexivity]
+  end.
+
+Lemma pres_oregion : forall n k miss s e s', Inv n k miss s -> step VCorrect n s e = Some s' ->
+  forall u, in_outer_region (pcs s' u) = true -> olock s' = Some u.
+Proof.
+  intros n k miss s [t st] s' I H. step_inv H; own I; sp; intros u Hu; upd_at u t Hu;
+    try discriminate Hu; try reflexivity; try assumption; try (now apply (inv_oregion _ _ _ _ I)).
+  - apply (inv_oregion _ _ _ _ I) in Hu. rewrite Hol in Hu. discriminate Hu.
+  - by_excl I.
+Qed.
+
+Lemma pres_oholder : forall n k miss s e s', Inv n k miss s -> step VCorrect n s e = Some s' ->
+  forall u, olock s' = Some u -> in_outer_region (pcs s' u) = true.
+Proof.
+  intros n k miss s [t st] s' I H. step_inv H; own I; sp; intros u Hu; try discriminate Hu;
+    try (rewrite Hown in Hu; injection Hu as <-; rewrite upd_same; try reflexivity).
+  all: try solve [destruct (flag s); reflexivity | destruct (all_done n _); reflexivity].
+  - upd_goal u t; [|now apply (inv_oholder _ _ _ _ I)]. apply (inv_oholder _ _ _ _ I) in Hu. rewrite Hpc in Hu. discriminate Hu.
+  - injection Hu as <-. now rewrite upd_same.
+  - upd_goal u t; [|now apply (inv_oholder _ _ _ _ I)]. apply (inv_oholder _ _ _ _ I) in Hu. rewrite Hpc in Hu. discriminate Hu.
+Qed.
+
+Lemma pres_region : forall n k miss s e s', Inv n k miss s -> step VCorrect n s e = Some s' ->
   forall u, in_locked_region (pcs s' u) = true -> lock s' = Some u.
 Proof.
-  intros n k s [t st] s' I H.
-  assert (Ht : in_locked_region (pcs s t) = true -> lock s = Some t) by apply (inv_region _ _ _ I).
-  assert (Hu' : forall u, in_locked_region (pcs s u) = true -> lock s = Some u) by apply (inv_region _ _ _ I).
-  step_inv H; cbn [lock pcs set_pc]; intros u Hu; rewrite Hpc in Ht; cbn [in_locked_region] in Ht;
-    upd_at u t Hu; try (now apply Hu'); try (now apply Ht).
-  - destruct (flag s); discriminate Hu.
-  - reflexivity.
-  - apply Hu' in Hu. rewrite Hlk in Hu. discriminate Hu.
-  - discriminate Hu.
-  - apply Hu' in Hu. rewrite (Ht eq_refl) in Hu. injection Hu as <-. contradiction.
+  intros n k miss s [t st] s' I H. step_inv H; own I; sp; intros u Hu; upd_at u t Hu;
+    try discriminate Hu; try reflexivity; try assumption; try (now apply (inv_region _ _ _ _ I)).
+  all: try solve [destruct (flag s); discriminate Hu | destruct (all_done n _); discriminate Hu].
+  all: try solve [apply locked_outer in Hu; by_excl I].
 Qed.
 
-Lemma pres_holder : forall n k s e s', Inv n k s -> step VCorrect n s e = Some s' ->
+Lemma pres_holder : forall n k miss s e s', Inv n k miss s -> step VCorrect n s e = Some s' ->
   forall u, lock s' = Some u -> in_locked_region (pcs s' u) = true.
 Proof.
-  intros n k s [t st] s' I H.
-  assert (Hu' : forall u, lock s = Some u -> in_locked_region (pcs s u) = true) by apply (inv_holder _ _ _ I).
-  step_inv H; cbn [lock pcs set_pc]; intros u Hu;
-    try (apply Hu' in Hu; upd_goal u t; [rewrite Hpc in Hu; cbn [in_locked_region] in Hu; try discriminate Hu|exact Hu]).
-  - injection Hu as <-. now rewrite upd_same.
-  - now destruct (flag s).
-  - now destruct (all_done n []).
-  - now destruct (all_done n (i0 :: done0)).
-  - reflexivity.
-  - discriminate Hu.
+  intros n k miss s [t st] s' I H. step_inv H; own I; sp; intros u Hu; try discriminate Hu;
+    try (rewrite Hlown in Hu; injection Hu as <-; rewrite upd_same; try reflexivity).
+  all: try solve [destruct (flag s); reflexivity | destruct (all_done n _); reflexivity].
+  all: try solve [injection Hu as <-; now rewrite upd_same].
+  all: apply (inv_holder _ _ _ _ I) in Hu; upd_goal u t; try exact Hu; rewrite Hpc in Hu; discriminate Hu.
 Qed.
 
-Lemma pres_noflag : forall n k s e s', Inv n k s -> step VCorrect n s e = Some s' ->
-  forall u, before_setflag (pcs s' u) = true -> flag s' = false.
+Lemma pres_outside : forall n k miss s e s', Inv n k miss s -> step VCorrect n s e = Some s' ->
+  forall u, k <= u -> pcs s' u = PDone.
 Proof.
-  intros n k s [t st] s' I H.
-  assert (Hu' : forall u, before_setflag (pcs s u) = true -> flag s = false) by apply (inv_noflag _ _ _ I).
-  assert (Hr : forall u, in_locked_region (pcs s u) = true -> lock s = Some u) by apply (inv_region _ _ _ I).
-  assert (Ht := Hu' t). rewrite Hpc in Ht || idtac.
-  step_inv H; cbn [flag pcs set_pc]; intros u Hu; rewrite Hpc in Ht; cbn [before_setflag] in Ht;
-    upd_at u t Hu; try (now apply (Hu' u)); try (now apply Ht).
-  all: try solve [discriminate Hu | destruct (flag s); (discriminate Hu || reflexivity) | apply Ht; reflexivity].
-  apply before_setflag_locked in Hu. apply Hr in Hu.
-  assert (Hl : lock s = Some t) by (apply Hr; now rewrite Hpc). rewrite Hl in Hu. injection Hu as <-. contradiction.
+  intros n k miss s [t st] s' I H.
+  assert (Hu' : forall u, k <= u -> pcs s u = PDone) by apply (inv_outside _ _ _ _ I).
+  step_inv H; sp; intros u Hu; (upd_goal u t; [|now apply Hu']);
+    apply Hu' in Hu; rewrite Hpc in Hu; try discriminate Hu; reflexivity.
+Qed.
+
+Lemma pres_missing : forall n k miss s e s', Inv n k miss s -> step VCorrect n s e = Some s' -> missing s' = miss.
+Proof. intros n k miss s [t st] s' I H. step_inv H; sp; exact (inv_missing _ _ _ _ I). Qed.
+
+Lemma pres_noflag : forall n k miss s e s', Inv n k miss s -> step VCorrect n s e = Some s' ->
+  forall u, working (pcs s' u) = true -> flag s' = false.
+Proof.
+  intros n k miss s [t st] s' I H. step_inv H; own I; sp; intros u Hu; upd_at u t Hu;
+    try discriminate Hu; try assumption; try (now apply (inv_noflag _ _ _ _ I u)).
+  all: try solve [destruct (flag s); [discriminate Hu|reflexivity]].
+  all: apply working_outer in Hu; by_excl I.
+Qed.
+
+Lemma pres_after : forall n k miss s e s', Inv n k miss s -> step VCorrect n s e = Some s' ->
+  forall u, flagged (pcs s' u) = true -> flag s' = true.
+Proof.
+  intros n k miss s [t st] s' I H. step_inv H; own I; sp; intros u Hu; upd_at u t Hu;
+    try discriminate Hu; try reflexivity; try assumption; try (now apply (inv_after _ _ _ _ I u)).
+  all: try solve [destruct (flag s); [reflexivity|discriminate Hu] | destruct (all_done n _); discriminate Hu].
+Qed.
+
+Lemma pres_flag : forall n k miss s e s', Inv n k miss s -> step VCorrect n s e = Some s' ->
+  flag s' = true -> forall i, i < n -> files s' i = Current.
+Proof.
+  intros n k miss s [t st] s' I H. step_inv H; own I; sp; intros Hf j Hj;
+    try (rewrite Hnf in Hf; discriminate Hf); try (now apply (inv_flag _ _ _ _ I)).
+  - now apply (inv_setflag _ _ _ _ I t).
+  - now apply (inv_complete _ _ _ _ I t).
+Qed.
+
+Lemma pres_pristine : forall n k miss s e s', Inv n k miss s -> step VCorrect n s e = Some s' ->
+  forall u, pre_restore (pcs s' u) = true -> flag s' = false -> restores s' = [] /\ reruns s' = [].
+Proof.
+  intros n k miss s [t st] s' I H. step_inv H; own I; sp; intros u Hu Hf; upd_at u t Hu;
+    try discriminate Hu; try (now apply (inv_pristine _ _ _ _ I u)).
+  all: try solve [apply pre_restore_outer in Hu; by_excl I].
+  all: try solve [apply (inv_pristine _ _ _ _ I t); [rewrite Hpc; reflexivity|assumption]].
+  all: try solve [destruct (all_done n _); discriminate Hu].
+  now apply (inv_idle _ _ _ _ I).
+Qed.
+
+Lemma pres_idle : forall n k miss s e s', Inv n k miss s -> step VCorrect n s e = Some s' ->
+  olock s' = None -> flag s' = false -> restores s' = [] /\ reruns s' = [].
+Proof.
+  intros n k miss s [t st] s' I H. step_inv H; own I; sp; intros Ho Hf;
+    try (rewrite Hown in Ho; discriminate Ho); try discriminate Ho; try (now apply (inv_idle _ _ _ _ I)).
+  rewrite Hfl in Hf. discriminate Hf.
+Qed.
+
+Lemma pres_restore : forall n k miss s e s', Inv n k miss s -> step VCorrect n s e = Some s' ->
+  forall u done, pcs s' u = PRestore done ->
+  all_done n done = false /\ restores s' = map (pair u) done /\ reruns s' = [].
+Proof.
+  intros n k miss s [t st] s' I H. step_inv H; own I; sp; intros u done Hu; upd_at u t Hu;
+    try discriminate Hu; try (now apply (inv_restore _ _ _ _ I u)).
+  all: try solve [by_excl I].
+  all: try solve [destruct (flag s); discriminate Hu].
+  - destruct (all_done n []) eqn:Ea; [discriminate Hu|]. injection Hu as <-.
+    destruct (inv_pristine _ _ _ _ I t) as [Hr Hq]; [rewrite Hpc; reflexivity|assumption|]. now rewrite Hr, Hq.
+  - destruct (all_done n (i0 :: done0)) eqn:Ea; [discriminate Hu|]. injection Hu as <-.
+    destruct (inv_restore _ _ _ _ I t done0 Hpc) as (_ & Hr & Hq). rewrite Hr. now split.
+  - destruct (all_done n []); discriminate Hu.
+  - destruct (all_done n (i0 :: done0)); discriminate Hu.
+Qed.
+
+Lemma file_of_log_cons : forall l t i j,
+  file_of_log ((t, i) :: l) j = upd (file_of_log l) i Current j.
+Proof.
+  intros l t i j. unfold file_of_log, upd. cbn [map snd]. rewrite memb_cons. destruct (Nat.eqb j i); reflexivity.
+Qed.
+
+Lemma upd_ext : forall (A : Type) (f g : nat -> A) i x j, f j = g j -> upd f i x j = upd g i x j.
+Proof. intros A f g i x j H. unfold upd. now destruct (Nat.eqb j i). Qed.
+
+Lemma pres_files : forall n k miss s e s', Inv n k miss s -> step VCorrect n s e = Some s' ->
+  reruns s' = [] -> forall i, files s' i = file_of_log (restores s') i.
+Proof.
+  intros n k miss s [t st] s' I H. step_inv H; sp; intros Hq j; try (now apply (inv_files _ _ _ _ I)).
+  - rewrite file_of_log_cons. apply upd_ext. now apply (inv_files _ _ _ _ I).
+  - discriminate Hq.
+  - destruct (inv_rerun _ _ _ _ I t done0 Hpc) as (_ & Hne & _). contradiction.
+Qed.
+
+Lemma pres_log : forall n k miss s e s', Inv n k miss s -> step VCorrect n s e = Some s' ->
+  forall u i, In (u, i) (restores s') -> i < n /\ missing s' i = false.
+Proof.
+  intros n k miss s [t st] s' I H. step_inv H; sp; intros u j Hin; try (now apply (inv_log _ _ _ _ I u)).
+  destruct Hin as [Hin|Hin]; [injection Hin as _ <-; now split|now apply (inv_log _ _ _ _ I u)].
+Qed.
+
+Lemma pres_once : forall n k miss s e s', Inv n k miss s -> step VCorrect n s e = Some s' ->
+  NoDup (map snd (restores s')).
+Proof.
+  intros n k miss s [t st] s' I H. step_inv H; sp; try exact (inv_once _ _ _ _ I).
+  cbn [map snd]. constructor; [|exact (inv_once _ _ _ _ I)].
+  destruct (inv_restore _ _ _ _ I t done0 Hpc) as (_ & Hr & _). now rewrite Hr, map_snd_pair.
 Qed.
 
 Lemma upd_files_current : forall (f : nat -> fstate) i j, f j = Current -> upd f i Current j = Current.
 Proof. intros f i j H. unfold upd. now destruct (Nat.eqb j i). Qed.
 
-Lemma pres_restore : forall n k s e s', Inv n k s -> step VCorrect n s e = Some s' ->
-  forall u done, pcs s' u = PRestore done ->
-  all_done n done = false /\ forall i, In i done -> files s' i = Current.
+(* inside the restore loop the outputs restored so far are current *)
+Lemma restored_current : forall n k miss s t done, Inv n k miss s -> pcs s t = PRestore done ->
+  forall j, In j done -> files s j = Current.
 Proof.
-  intros n k s [t st] s' I H.
-  assert (Hu' : forall u done, pcs s u = PRestore done ->
-            all_done n done = false /\ forall i, In i done -> files s i = Current) by apply (inv_restore _ _ _ I).
-  step_inv H; cbn [files pcs set_pc]; intros u done Hu; upd_at u t Hu; try (now apply (Hu' u)).
-  all: try solve [discriminate Hu | destruct (flag s); discriminate Hu].
-  - destruct (all_done n []) eqn:Ea; [discriminate Hu|]. injection Hu as <-. split; [exact Ea|]. intros i [].
-  - destruct (all_done n (i0 :: done0)) eqn:Ea; [discriminate Hu|]. injection Hu as <-. split; [exact Ea|].
-    intros j [<-|Hj]; [apply upd_same|]. apply upd_files_current. now apply (Hu' t done0).
-  - destruct (Hu' u done Hu) as [Ha Hf]. split; [exact Ha|]. intros j Hj. apply upd_files_current. now apply Hf.
+  intros n k miss s t done I Hpc j Hj. destruct (inv_restore _ _ _ _ I t done Hpc) as (_ & Hr & Hq).
+  rewrite (inv_files _ _ _ _ I Hq). unfold file_of_log. rewrite Hr, map_snd_pair.
+  apply memb_In in Hj. now rewrite Hj.
 Qed.
 
-Lemma pres_setflag : forall n k s e s', Inv n k s -> step VCorrect n s e = Some s' ->
+Lemma pres_setflag : forall n k miss s e s', Inv n k miss s -> step VCorrect n s e = Some s' ->
   forall u, pcs s' u = PSetFlag -> forall i, i < n -> files s' i = Current.
 Proof.
-  intros n k s [t st] s' I H.
-  assert (Hu' : forall u, pcs s u = PSetFlag -> forall i, i < n -> files s i = Current) by apply (inv_setflag _ _ _ I).
-  assert (Hr := inv_restore _ _ _ I).
-  step_inv H; cbn [files pcs set_pc]; intros u Hu; upd_at u t Hu; try (now apply (Hu' u)).
-  all: try solve [discriminate Hu | destruct (flag s); discriminate Hu].
+  intros n k miss s [t st] s' I H. step_inv H; own I; sp; intros u Hu; upd_at u t Hu;
+    try discriminate Hu; try (now apply (inv_setflag _ _ _ _ I u)).
+  all: try solve [by_excl I].
+  all: try solve [destruct (flag s); discriminate Hu].
   - destruct (all_done n []) eqn:Ea; [|discriminate Hu]. apply all_done_nil in Ea. intros i Hi. lia.
   - destruct (all_done n (i0 :: done0)) eqn:Ea; [|discriminate Hu]. intros j Hj.
     destruct (proj1 (all_done_spec _ _) Ea j Hj) as [<-|Hin]; [apply upd_same|].
-    apply upd_files_current. now apply (proj2 (Hr t done0 Hpc)).
-  - intros j Hj. apply upd_files_current. now apply (Hu' u).
+    apply upd_files_current. now apply (restored_current n k miss s t done0 I Hpc).
+  - destruct (all_done n []); discriminate Hu.
+  - destruct (all_done n (i0 :: done0)); discriminate Hu.
 Qed.
 
-Lemma pres_after : forall n k s e s', Inv n k s -> step VCorrect n s e = Some s' ->
-  forall u, pcs s' u = PUnlock \/ pcs s' u = PRunCmd -> flag s' = true.
+Lemma pres_rerun : forall n k miss s e s', Inv n k miss s -> step VCorrect n s e = Some s' ->
+  forall u done, pcs s' u = PRerun done ->
+  all_done n done = false /\ reruns s' <> [] /\ forall i, In i done -> files s' i = Current.
 Proof.
-  intros n k s [t st] s' I H.
-  assert (Hu' : forall u, pcs s u = PUnlock \/ pcs s u = PRunCmd -> flag s = true) by apply (inv_after _ _ _ I).
-  step_inv H; cbn [flag pcs set_pc]; intros u Hu; try reflexivity; upd_at u t Hu; try (now apply (Hu' u)).
-  all: try solve [destruct Hu as [Hu|Hu]; discriminate Hu
-                 |destruct (flag s); [reflexivity|destruct Hu as [Hu|Hu]; discriminate Hu]].
-  - destruct (all_done n []); destruct Hu as [Hu|Hu]; discriminate Hu.
-  - destruct (all_done n (i0 :: done0)); destruct Hu as [Hu|Hu]; discriminate Hu.
-  - apply (Hu' t). now left.
+  intros n k miss s [t st] s' I H. step_inv H; own I; sp; intros u done Hu; upd_at u t Hu;
+    try discriminate Hu; try (now apply (inv_rerun _ _ _ _ I u)).
+  all: try solve [by_excl I].
+  all: try solve [destruct (flag s); discriminate Hu].
+  - destruct (all_done n []); discriminate Hu.
+  - destruct (all_done n (i0 :: done0)); discriminate Hu.
+  - destruct (all_done n []) eqn:Ea; [discriminate Hu|]. injection Hu as <-. split; [exact Ea|]. split; [discriminate|intros i []].
+  - destruct (all_done n (i0 :: done0)) eqn:Ea; [discriminate Hu|]. injection Hu as <-.
+    destruct (inv_rerun _ _ _ _ I t done0 Hpc) as (_ & Hq & Hf). split; [exact Ea|]. split; [exact Hq|].
+    intros j [<-|Hj]; [apply upd_same|]. apply upd_files_current. now apply Hf.
+Qed.
+
+Lemma pres_complete : forall n k miss s e s', Inv n k miss s -> step VCorrect n s e = Some s' ->
+  forall u, pcs s' u = PComplete -> forall i, i < n -> files s' i = Current.
+Proof.
+  intros n k miss s [t st] s' I H. step_inv H; own I; sp; intros u Hu; upd_at u t Hu;
+    try discriminate Hu; try (now apply (inv_complete _ _ _ _ I u)).
+  all: try solve [by_excl I].
+  all: try solve [destruct (flag s); discriminate Hu].
+  - destruct (all_done n []); discriminate Hu.
+  - destruct (all_done n (i0 :: done0)); discriminate Hu.
+  - destruct (all_done n []) eqn:Ea; [|discriminate Hu]. apply all_done_nil in Ea. intros i Hi. lia.
+  - destruct (all_done n (i0 :: done0)) eqn:Ea; [|discriminate Hu]. intros j Hj.
+    destruct (proj1 (all_done_spec _ _) Ea j Hj) as [<-|Hin]; [apply upd_same|].
+    apply upd_files_current. now apply (proj2 (proj2 (inv_rerun _ _ _ _ I t done0 Hpc))).
+Qed.
+
+(* d's command has not run when a task is about to start it *)
+Lemma no_rerun_yet : forall n k miss s t, Inv n k miss s -> pcs s t = PRerunStart -> reruns s = [].
+Proof.
+  intros n k miss s t I Hpc. destruct (reruns s) as [|r l] eqn:Er; [reflexivity|]. exfalso.
+  destruct (inv_acct _ _ _ _ I) as [Hf|[u Hu]]; [rewrite Er; discriminate| |].
+  - rewrite (inv_noflag _ _ _ _ I t) in Hf by (now rewrite Hpc). discriminate Hf.
+  - assert (E : u = t) by (apply (excl _ _ _ s u t I); [now apply rerunning_outer|now rewrite Hpc]).
+    subst u. rewrite Hpc in Hu. discriminate Hu.
+Qed.
+
+Lemma pres_reruns : forall n k miss s e s', Inv n k miss s -> step VCorrect n s e = Some s' -> length (reruns s') <= 1.
+Proof.
+  intros n k miss s [t st] s' I H. step_inv H; sp; try exact (inv_reruns _ _ _ _ I).
+  rewrite (no_rerun_yet n k miss s t I Hpc). cbn [length]. lia.
+Qed.
+
+Lemma pres_acct : forall n k miss s e s', Inv n k miss s -> step VCorrect n s e = Some s' ->
+  reruns s' <> [] -> flag s' = true \/ exists u, rerunning (pcs s' u) = true.
+Proof.
+  intros n k miss s [t st] s' I H.
+  assert (A := inv_acct _ _ _ _ I).
+  step_inv H; sp; intros Hq;
+    try (destruct (A Hq) as [Hf|[u Hu]];
+         [now left
+         |destruct (Nat.eq_dec u t) as [->|Hne];
+          [rewrite Hpc in Hu; try discriminate Hu|right; exists u; now rewrite upd_other]]).
+  - right. exists t. rewrite upd_same. now destruct (all_done n []).
+  - right. exists t. rewrite upd_same. now destruct (all_done n (i0 :: done0)).
+  - now left.
 Qed.
 
 Lemma observe_current : forall n s, (forall i, i < n -> files s i = Current) -> saw_all_current n (observe n s) = true.
@@ -244,132 +484,99 @@ Proof.
   rewrite H by lia. reflexivity.
 Qed.
 
-Lemma pres_obs : forall n k s e s', Inv n k s -> step VCorrect n s e = Some s' ->
+Lemma pres_obs : forall n k miss s e s', Inv n k miss s -> step VCorrect n s e = Some s' ->
   forall u o, In (u, o) (obs s') -> saw_all_current n o = true.
 Proof.
-  intros n k s [t st] s' I H.
-  assert (Hu' : forall u o, In (u, o) (obs s) -> saw_all_current n o = true) by apply (inv_obs _ _ _ I).
-  step_inv H; cbn [obs set_pc]; intros u o Hu; try (now apply (Hu' u)).
-  destruct Hu as [Hu|Hu]; [|now apply (Hu' u)]. injection Hu as <- <-.
-  apply observe_current. apply (inv_flag _ _ _ I). apply (inv_after _ _ _ I t). now right.
+  intros n k miss s [t st] s' I H. step_inv H; own I; sp; intros u o Hu; try (now apply (inv_obs _ _ _ _ I u)).
+  destruct Hu as [Hu|Hu]; [|now apply (inv_obs _ _ _ _ I u)]. injection Hu as <- <-.
+  apply observe_current. now apply (inv_flag _ _ _ _ I).
 Qed.
 
-Lemma pres_outside : forall n k s e s', Inv n k s -> step VCorrect n s e = Some s' ->
-  forall u, k <= u -> pcs s' u = PDone.
+Lemma pres_wrote : forall n k miss s e s', Inv n k miss s -> step VCorrect n s e = Some s' ->
+  forall u o, In (u, o) (wrote s') -> saw_all_current n o = true.
 Proof.
-  intros n k s [t st] s' I H.
-  assert (Hu' : forall u, k <= u -> pcs s u = PDone) by apply (inv_outside _ _ _ I).
-  step_inv H; cbn [pcs set_pc]; intros u Hu; (upd_goal u t; [|now apply Hu']);
-    apply Hu' in Hu; rewrite Hpc in Hu; try discriminate Hu; reflexivity.
+  intros n k miss s [t st] s' I H. step_inv H; sp; intros u o Hu; try (now apply (inv_wrote _ _ _ _ I u)).
+  destruct Hu as [Hu|Hu]; [|now apply (inv_wrote _ _ _ _ I u)]. injection Hu as <- <-.
+  apply observe_current. now apply (inv_complete _ _ _ _ I t).
 Qed.
 
-Lemma pres_done : forall n k s e s', Inv n k s -> step VCorrect n s e = Some s' ->
+Lemma pres_done : forall n k miss s e s', Inv n k miss s -> step VCorrect n s e = Some s' ->
   forall u, u < k -> pcs s' u = PDone -> exists o, In (u, o) (obs s').
 Proof.
-  intros n k s [t st] s' I H.
-  assert (Hu' : forall u, u < k -> pcs s u = PDone -> exists o, In (u, o) (obs s)) by apply (inv_done _ _ _ I).
-  step_inv H; cbn [obs pcs set_pc]; intros u Hk Hu; upd_at u t Hu; try (now apply (Hu' u)).
-  all: try solve [discriminate Hu | destruct (flag s); discriminate Hu].
-  - destruct (all_done n []); discriminate Hu.
-  - destruct (all_done n (i0 :: done0)); discriminate Hu.
+  intros n k miss s [t st] s' I H.
+  assert (Hu' : forall u, u < k -> pcs s u = PDone -> exists o, In (u, o) (obs s)) by apply (inv_done _ _ _ _ I).
+  step_inv H; sp; intros u Hk Hu; upd_at u t Hu; try discriminate Hu; try (now apply (Hu' u)).
+  all: try solve [destruct (flag s); discriminate Hu | destruct (all_done n _); discriminate Hu].
   - exists (observe n s). now left.
   - destruct (Hu' u Hk Hu) as [o Ho]. exists o. now right.
 Qed.
 
-Lemma pres_files : forall n k s e s', Inv n k s -> step VCorrect n s e = Some s' ->
-  forall i, files s' i = Current <-> exists u, In (u, i) (restores s').
+(* a file is torn only while a task runs d's command and has not written it yet *)
+Lemma pres_torn : forall n k miss s e s', Inv n k miss s -> step VCorrect n s e = Some s' ->
+  forall i, files s' i = Torn -> i < n /\ exists u done, pcs s' u = PRerun done /\ ~ In i done.
 Proof.
-  intros n k s [t st] s' I H.
-  assert (Hu' : forall i, files s i = Current <-> exists u, In (u, i) (restores s)) by apply (inv_files _ _ _ I).
-  step_inv H; cbn [files restores set_pc]; intros i; try (now apply Hu').
-  split.
-  - intros Hf. destruct (Nat.eq_dec i i0) as [->|Hne]; [exists t; now left|].
-    rewrite upd_other in Hf by assumption. apply Hu' in Hf. destruct Hf as [u Hin]. exists u. now right.
-  - intros [u [Hin|Hin]]; [injection Hin as _ <-; apply upd_same|].
-    apply upd_files_current. apply Hu'. now exists u.
+  intros n k miss s [t st] s' I H.
+  assert (T := inv_torn _ _ _ _ I).
+  assert (Keep : forall j p, (forall d, pcs s t <> PRerun d) -> files s j = Torn ->
+            j < n /\ exists u done, upd (pcs s) t p u = PRerun done /\ ~ In j done).
+  { intros j p Hp Hj. destruct (T j Hj) as [Hn (u & done & Hu & Hd)]. split; [exact Hn|]. exists u, done.
+    split; [|exact Hd]. destruct (Nat.eq_dec u t) as [->|Hne]; [now contradiction (Hp done)|now rewrite upd_other]. }
+  step_inv H; sp; intros j Hj; try (apply Keep; [intros d; rewrite Hpc; discriminate|exact Hj]).
+  - apply Keep; [intros d; rewrite Hpc; discriminate|]. unfold upd in Hj. destruct (Nat.eqb j i0); [discriminate Hj|exact Hj].
+  - unfold tear in Hj. destruct (Nat.ltb_spec j n) as [Hlt|Hge].
+    + split; [exact Hlt|]. exists t, []. rewrite upd_same. destruct (all_done n []) eqn:Ea.
+      * apply all_done_nil in Ea. lia.
+      * split; [reflexivity|intros []].
+    + destruct (T j Hj) as [Hn _]. lia.
+  - assert (Hji : j <> i0) by (intros E; rewrite E, upd_same in Hj; discriminate Hj).
+    rewrite upd_other in Hj by exact Hji.
+    destruct (T j Hj) as [Hn (u & done & Hu & Hd)]. split; [exact Hn|].
+    assert (E : u = t) by (apply (excl _ _ _ s u t I); [now rewrite Hu|now rewrite Hpc]). subst u.
+    rewrite Hpc in Hu. injection Hu as <-. exists t. rewrite upd_same.
+    destruct (all_done n (i0 :: done0)) eqn:Ea.
+    + exfalso. destruct (proj1 (all_done_spec _ _) Ea j Hn) as [E|Hin]; [now apply Hji|now apply Hd].
+    + exists (i0 :: done0). split; [reflexivity|]. intros [E|Hin]; [now apply Hji|now apply Hd].
 Qed.
 
-(* who accounts for a logged restore of output i: the flag, or the task that is still inside LoadOutputs *)
-Definition log_ok (n : nat) (s : state) (i : nat) : Prop :=
-  i < n /\ (flag s = true \/
-            exists h, lock s = Some h /\ (pcs s h = PSetFlag \/ exists done, pcs s h = PRestore done /\ In i done)).
-
-Lemma pres_log : forall n k s e s', Inv n k s -> step VCorrect n s e = Some s' ->
-  forall u i, In (u, i) (restores s') -> log_ok n s' i.
+Lemma inv_step : forall n k miss s e s', Inv n k miss s -> step VCorrect n s e = Some s' -> Inv n k miss s'.
 Proof.
-  intros n k s [t st] s' I H.
-  assert (Hu' : forall u i, In (u, i) (restores s) -> log_ok n s i) by apply (inv_log _ _ _ I).
-  assert (Hr : forall u, in_locked_region (pcs s u) = true -> lock s = Some u) by apply (inv_region _ _ _ I).
-  assert (Hlt : in_locked_region (pcs s t) = true -> lock s = Some t) by apply Hr.
-  step_inv H; cbn [restores set_pc]; intros u i Hu; rewrite Hpc in Hlt; cbn [in_locked_region] in Hlt.
-  6: { (* Restore *)
-    specialize (Hlt eq_refl).
-    assert (Hnew : forall j, In j (i0 :: done0) -> j < n -> log_ok n
-       (mkState (flag s) (lock s) (upd (files s) i0 Current)
-          (upd (pcs s) t (if all_done n (i0 :: done0) then PSetFlag else PRestore (i0 :: done0)))
-          (requested s) ((t, i0) :: restores s) (obs s)) j).
-    { intros j Hj Hjn. split; [exact Hjn|]. right. exists t. cbn [lock pcs]. split; [exact Hlt|]. rewrite upd_same.
-      destruct (all_done n (i0 :: done0)); [now left|]. right. exists (i0 :: done0). now split. }
-    destruct Hu as [Hu|Hu]; [injection Hu as _ <-; apply Hnew; [now left|exact Hi0]|].
-    destruct (Hu' u i Hu) as [Hi [Hf|(h & Hl & Hp)]].
-    - rewrite (inv_noflag _ _ _ I t) in Hf by (now rewrite Hpc). discriminate Hf.
-    - rewrite Hlt in Hl. injection Hl as <-. rewrite Hpc in Hp.
-      destruct Hp as [Hp|(d & Hp & Hin)]; [discriminate Hp|]. injection Hp as <-. apply Hnew; [now right|exact Hi]. }
-  all: destruct (Hu' u i Hu) as [Hi [Hf|(h & Hl & Hp)]]; (split; [exact Hi|]); cbn [flag lock pcs set_pc];
-    try (left; first [exact Hf|reflexivity]).
-  all: destruct (Nat.eq_dec h t) as [->|Hne];
-    [rewrite Hpc in Hp; destruct Hp as [Hp|(d & Hp & _)]; try discriminate Hp
-    |try (right; exists h; rewrite (upd_other _ _ _ _ _ Hne); split; [exact Hl|exact Hp])].
-  - rewrite Hlk in Hl. discriminate Hl.
-  - rewrite (Hlt eq_refl) in Hl. injection Hl as <-. contradiction.
+  intros n k miss s e s' I H. constructor.
+  - exact (pres_oregion n k miss s e s' I H).
+  - exact (pres_oholder n k miss s e s' I H).
+  - exact (pres_region n k miss s e s' I H).
+  - exact (pres_holder n k miss s e s' I H).
+  - exact (pres_outside n k miss s e s' I H).
+  - exact (pres_missing n k miss s e s' I H).
+  - exact (pres_noflag n k miss s e s' I H).
+  - exact (pres_after n k miss s e s' I H).
+  - exact (pres_flag n k miss s e s' I H).
+  - exact (pres_pristine n k miss s e s' I H).
+  - exact (pres_idle n k miss s e s' I H).
+  - exact (pres_restore n k miss s e s' I H).
+  - exact (pres_files n k miss s e s' I H).
+  - exact (pres_log n k miss s e s' I H).
+  - exact (pres_once n k miss s e s' I H).
+  - exact (pres_setflag n k miss s e s' I H).
+  - exact (pres_rerun n k miss s e s' I H).
+  - exact (pres_complete n k miss s e s' I H).
+  - exact (pres_reruns n k miss s e s' I H).
+  - exact (pres_acct n k miss s e s' I H).
+  - exact (pres_obs n k miss s e s' I H).
+  - exact (pres_wrote n k miss s e s' I H).
+  - exact (pres_done n k miss s e s' I H).
+  - exact (pres_torn n k miss s e s' I H).
 Qed.
 
-Lemma pres_once : forall n k s e s', Inv n k s -> step VCorrect n s e = Some s' ->
-  NoDup (map snd (restores s')).
+Lemma inv_run : forall n k miss evs s s', Inv n k miss s -> run VCorrect n s evs = Some s' -> Inv n k miss s'.
 Proof.
-  intros n k s [t st] s' I H.
-  assert (Hu' := inv_once _ _ _ I).
-  assert (Hlog : forall u i, In (u, i) (restores s) -> log_ok n s i) by apply (inv_log _ _ _ I).
-  assert (Hr : in_locked_region (pcs s t) = true -> lock s = Some t) by apply (inv_region _ _ _ I).
-  assert (Hnf : before_setflag (pcs s t) = true -> flag s = false) by apply (inv_noflag _ _ _ I).
-  step_inv H; cbn [restores set_pc]; try exact Hu'.
-  cbn [map snd]. constructor; [|exact Hu'].
-  intros Hin. apply in_map_iff in Hin. destruct Hin as [[u j] [Ej Hin]]. cbn [snd] in Ej. subst j.
-  rewrite Hpc in Hr, Hnf. specialize (Hr eq_refl). specialize (Hnf eq_refl).
-  destruct (Hlog u i0 Hin) as [_ [Hf|(h & Hl & Hp)]].
-  - rewrite Hnf in Hf. discriminate Hf.
-  - rewrite Hr in Hl. injection Hl as <-. rewrite Hpc in Hp.
-    destruct Hp as [Hp|(d & Hp & Hd)]; [discriminate Hp|]. injection Hp as <-. contradiction.
-Qed.
-
-Lemma inv_step : forall n k s e s', Inv n k s -> step VCorrect n s e = Some s' -> Inv n k s'.
-Proof.
-  intros n k s e s' I H. constructor.
-  - exact (pres_flag n k s e s' I H).
-  - exact (pres_region n k s e s' I H).
-  - exact (pres_holder n k s e s' I H).
-  - exact (pres_noflag n k s e s' I H).
-  - exact (pres_restore n k s e s' I H).
-  - exact (pres_setflag n k s e s' I H).
-  - exact (pres_after n k s e s' I H).
-  - exact (pres_obs n k s e s' I H).
-  - exact (pres_outside n k s e s' I H).
-  - exact (pres_done n k s e s' I H).
-  - exact (pres_log n k s e s' I H).
-  - exact (pres_files n k s e s' I H).
-  - exact (pres_once n k s e s' I H).
-Qed.
-
-Lemma inv_run : forall n k evs s s', Inv n k s -> run VCorrect n s evs = Some s' -> Inv n k s'.
-Proof.
-  intros n k evs. induction evs as [|e r IH]; intros s s' I H; cbn [run] in H.
+  intros n k miss evs. induction evs as [|e r IH]; intros s s' I H; cbn [run] in H.
   - injection H as <-. exact I.
   - destruct (step VCorrect n s e) as [s1|] eqn:E; [|discriminate H]. apply (IH s1 s'); [|exact H].
-    exact (inv_step n k s e s1 I E).
+    exact (inv_step n k miss s e s1 I E).
 Qed.
 
-Lemma inv_reachable : forall n k s, reachable VCorrect n k s -> Inv n k s.
-Proof. intros n k s [evs H]. exact (inv_run n k evs (init k) s (inv_init n k) H). Qed.
+Lemma inv_reachable : forall n k miss s, reachable VCorrect n k miss s -> Inv n k miss s.
+Proof. intros n k miss s [evs H]. exact (inv_run n k miss evs (init k miss) s (inv_init n k miss) H). Qed.
 
 Lemma run_app : forall v n evs1 evs2 s,
   run v n s (evs1 ++ evs2) = match run v n s evs1 with Some s1 => run v n s1 evs2 | None => None end.
@@ -378,76 +585,127 @@ Proof.
   destruct (step v n s e) as [s1|]; [apply IH|reflexivity].
 Qed.
 
-Lemma reachable_step : forall v n k s e s', reachable v n k s -> step v n s e = Some s' -> reachable v n k s'.
+Lemma reachable_step : forall v n k miss s e s', reachable v n k miss s -> step v n s e = Some s' -> reachable v n k miss s'.
 Proof.
-  intros v n k s e s' [evs H] Hs. exists (evs ++ [e]). rewrite run_app, H. cbn [run]. now rewrite Hs.
+  intros v n k miss s e s' [evs H] Hs. exists (evs ++ [e]). rewrite run_app, H. cbn [run]. now rewrite Hs.
 Qed.
 
-(* ------------------------------------------------------------------ 1-3: safety *)
+(* ------------------------------------------------------------------ 1-3: safety, with any set of lost blobs *)
 Lemma saw_all_current_repeat : forall n o, saw_all_current n o = true <-> o = repeat Current n.
 Proof.
   intros n o. unfold saw_all_current. rewrite andb_true_iff, Nat.eqb_eq. split.
   - intros [<- Hall]. induction o as [|f o IH]; [reflexivity|]. cbn [forallb] in Hall.
-    apply andb_true_iff in Hall. destruct Hall as [Hf Ho]. destruct f; [discriminate Hf|].
+    apply andb_true_iff in Hall. destruct Hall as [Hf Ho]. destruct f; try discriminate Hf.
     cbn [length repeat]. f_equal. now apply IH.
   - intros ->. split; [apply repeat_length|]. induction n as [|n IH]; [reflexivity|]. cbn. exact IH.
 Qed.
 
-Lemma cmd_sees_current : forall n k s, reachable VCorrect n k s ->
+Lemma cmd_sees_current : forall n k miss s, reachable VCorrect n k miss s ->
   forall t o, In (t, o) (obs s) -> o = repeat Current n.
 Proof.
-  intros n k s Hr t o Hin. apply saw_all_current_repeat. exact (inv_obs _ _ _ (inv_reachable n k s Hr) t o Hin).
+  intros n k miss s Hr t o Hin. apply saw_all_current_repeat. exact (inv_obs _ _ _ _ (inv_reachable n k miss s Hr) t o Hin).
 Qed.
 
-Lemma cmd_never_saw_stale : forall n k s, reachable VCorrect n k s -> cmd_saw_stale s = false.
+Lemma forallb_current_repeat : forall m, forallb is_current (repeat Current m) = true.
+Proof. intros m. induction m as [|m IH]; [reflexivity|exact IH]. Qed.
+
+Lemma existsb_torn_repeat : forall m, existsb is_torn (repeat Current m) = false.
+Proof. intros m. induction m as [|m IH]; [reflexivity|exact IH]. Qed.
+
+Lemma cmd_never_saw_stale : forall n k miss s, reachable VCorrect n k miss s -> cmd_saw_stale s = false.
 Proof.
-  intros n k s Hr. unfold cmd_saw_stale. destruct (existsb _ (obs s)) eqn:E; [|reflexivity].
+  intros n k miss s Hr. unfold cmd_saw_stale. destruct (existsb _ (obs s)) eqn:E; [|reflexivity].
   apply existsb_exists in E. destruct E as [[t o] [Hin Hb]]. cbn [snd] in Hb.
-  rewrite (cmd_sees_current n k s Hr t o Hin) in Hb. exfalso.
-  assert (H : forall m, forallb is_current (repeat Current m) = true)
-    by (intros m; induction m as [|m IH]; [reflexivity|exact IH]).
-  rewrite H in Hb. discriminate Hb.
+  rewrite (cmd_sees_current n k miss s Hr t o Hin), forallb_current_repeat in Hb. discriminate Hb.
 Qed.
 
-Lemma done_task_observed : forall n k s, reachable VCorrect n k s ->
+Lemma done_task_observed : forall n k miss s, reachable VCorrect n k miss s ->
   forall t, t < k -> pcs s t = PDone -> In (t, repeat Current n) (obs s).
 Proof.
-  intros n k s Hr t Ht Hd. destruct (inv_done _ _ _ (inv_reachable n k s Hr) t Ht Hd) as [o Ho].
-  now rewrite <- (cmd_sees_current n k s Hr t o Ho).
+  intros n k miss s Hr t Ht Hd. destruct (inv_done _ _ _ _ (inv_reachable n k miss s Hr) t Ht Hd) as [o Ho].
+  now rewrite <- (cmd_sees_current n k miss s Hr t o Ho).
 Qed.
 
-Lemma flag_implies_restored : forall n k s, reachable VCorrect n k s ->
+Lemma flag_implies_restored : forall n k miss s, reachable VCorrect n k miss s ->
   flag s = true -> forall i, i < n -> files s i = Current.
-Proof. intros n k s Hr. exact (inv_flag _ _ _ (inv_reachable n k s Hr)). Qed.
+Proof. intros n k miss s Hr. exact (inv_flag _ _ _ _ (inv_reachable n k miss s Hr)). Qed.
 
-Lemma restored_once : forall n k s, reachable VCorrect n k s ->
+Lemma file_of_log_current : forall l i, file_of_log l i = Current <-> exists t, In (t, i) l.
+Proof.
+  intros l i. unfold file_of_log. destruct (memb i (map snd l)) eqn:E.
+  - apply memb_In in E. apply in_map_iff in E. destruct E as [[t j] [Ej Hin]]. cbn [snd] in Ej. subst j.
+    split; [intros _; now exists t|reflexivity].
+  - split; [discriminate|]. intros [t Hin]. apply memb_false in E. exfalso. apply E.
+    apply in_map_iff. exists (t, i). now split.
+Qed.
+
+Lemma restored_once : forall n k miss s, reachable VCorrect n k miss s ->
   NoDup (map snd (restores s)) /\
-  (forall t i, In (t, i) (restores s) -> i < n) /\
-  (forall i, files s i = Current <-> exists t, In (t, i) (restores s)).
+  (forall t i, In (t, i) (restores s) -> i < n /\ miss i = false) /\
+  (reruns s = [] -> forall i, files s i = Current <-> exists t, In (t, i) (restores s)).
 Proof.
-  intros n k s Hr. assert (I := inv_reachable n k s Hr). split; [exact (inv_once _ _ _ I)|]. split.
-  - intros t i Hin. exact (proj1 (inv_log _ _ _ I t i Hin)).
-  - exact (inv_files _ _ _ I).
+  intros n k miss s Hr. assert (I := inv_reachable n k miss s Hr). split; [exact (inv_once _ _ _ _ I)|]. split.
+  - intros t i Hin. rewrite <- (inv_missing _ _ _ _ I). exact (inv_log _ _ _ _ I t i Hin).
+  - intros Hq i. rewrite (inv_files _ _ _ _ I Hq). apply file_of_log_current.
 Qed.
 
-Lemma restore_by_holder_of_stale : forall n k s t i s', reachable VCorrect n k s ->
+Lemma restore_by_holder_of_stale : forall n k miss s t i s', reachable VCorrect n k miss s ->
   step VCorrect n s (t, SRestore i) = Some s' ->
-  lock s = Some t /\ flag s = false /\ files s i = Stale.
+  olock s = Some t /\ lock s = Some t /\ flag s = false /\ files s i = Stale.
 Proof.
-  intros n k s t i s' Hr H. assert (I := inv_reachable n k s Hr).
+  intros n k miss s t i s' Hr H. assert (I := inv_reachable n k miss s Hr).
   remember (SRestore i) as st eqn:Est.
-  assert (N := pres_once n k s _ s' I H).
-  step_inv H; try discriminate Est. injection Est as ->.
-  assert (Hl : lock s = Some t) by (apply (inv_region _ _ _ I); now rewrite Hpc).
-  assert (Hf : flag s = false) by (apply (inv_noflag _ _ _ I t); now rewrite Hpc).
-  split; [exact Hl|]. split; [exact Hf|].
-  destruct (files s i) eqn:Ef; [reflexivity|]. exfalso.
-  apply (inv_files _ _ _ I) in Ef. destruct Ef as [u Hin].
-  cbn [restores map snd] in N. inversion N as [|x l Hni Hnd]. subst. apply Hni.
-  apply in_map_iff. exists (u, i). now split.
+  step_inv H; try discriminate Est; injection Est as ->; own I; (do 3 (split; [assumption|]));
+    destruct (inv_restore _ _ _ _ I t done0 Hpc) as (_ & Hr' & Hq);
+    rewrite (inv_files _ _ _ _ I Hq); unfold file_of_log; rewrite Hr', map_snd_pair;
+    apply memb_false in Hnd0; now rewrite Hnd0.
 Qed.
 
-(* ------------------------------------------------------------------ 4: progress *)
+(* ------------------------------------------------------------------ 4: the dependency's command is re-run at most once *)
+Lemma rerun_at_most_once : forall n k miss s, reachable VCorrect n k miss s -> length (reruns s) <= 1.
+Proof. intros n k miss s Hr. exact (inv_reruns _ _ _ _ (inv_reachable n k miss s Hr)). Qed.
+
+Lemma rerun_by_outer_holder : forall n k miss s t s', reachable VCorrect n k miss s ->
+  step VCorrect n s (t, SRerunStart) = Some s' ->
+  olock s = Some t /\ lock s = None /\ flag s = false /\ reruns s = [].
+Proof.
+  intros n k miss s t s' Hr H. assert (I := inv_reachable n k miss s Hr).
+  remember SRerunStart as st eqn:Est.
+  step_inv H; try discriminate Est. own I. split; [assumption|]. split.
+  - destruct (lock s) as [h|] eqn:El; [|reflexivity]. exfalso.
+    assert (Hh := inv_holder _ _ _ _ I h El).
+    assert (E : h = t) by (apply (excl _ _ _ s h t I); [now apply locked_outer|now rewrite Hpc]).
+    subst h. rewrite Hpc in Hh. discriminate Hh.
+  - split; [assumption|]. exact (no_rerun_yet n k miss s t I Hpc).
+Qed.
+
+Lemma wrote_current : forall n k miss s, reachable VCorrect n k miss s ->
+  forall t o, In (t, o) (wrote s) -> o = repeat Current n.
+Proof.
+  intros n k miss s Hr t o Hin. apply saw_all_current_repeat. exact (inv_wrote _ _ _ _ (inv_reachable n k miss s Hr) t o Hin).
+Qed.
+
+Lemma never_torn : forall n k miss s, reachable VCorrect n k miss s -> cmd_saw_torn s = false /\ cached_torn s = false.
+Proof.
+  intros n k miss s Hr. split.
+  - unfold cmd_saw_torn. destruct (existsb _ (obs s)) eqn:E; [|reflexivity].
+    apply existsb_exists in E. destruct E as [[t o] [Hin Hb]]. cbn [snd] in Hb.
+    rewrite (cmd_sees_current n k miss s Hr t o Hin), existsb_torn_repeat in Hb. discriminate Hb.
+  - unfold cached_torn. destruct (existsb _ (wrote s)) eqn:E; [|reflexivity].
+    apply existsb_exists in E. destruct E as [[t o] [Hin Hb]]. cbn [snd] in Hb.
+    rewrite (wrote_current n k miss s Hr t o Hin), existsb_torn_repeat in Hb. discriminate Hb.
+Qed.
+
+(* a file is torn only while the holder of the outer lock runs d's command and has not written it yet *)
+Lemma torn_only_during_rerun : forall n k miss s, reachable VCorrect n k miss s ->
+  forall i, files s i = Torn -> i < n /\ exists t done, olock s = Some t /\ pcs s t = PRerun done /\ ~ In i done.
+Proof.
+  intros n k miss s Hr i Hi. assert (I := inv_reachable n k miss s Hr).
+  destruct (inv_torn _ _ _ _ I i Hi) as [Hn (t & done & Hp & Hd)]. split; [exact Hn|]. exists t, done.
+  split; [|now split]. apply (inv_oregion _ _ _ _ I). now rewrite Hp.
+Qed.
+
+(* ------------------------------------------------------------------ 5: progress *)
 Lemma forallb_false_witness : forall (A : Type) (f : A -> bool) l,
   forallb f l = false -> exists x, In x l /\ f x = false.
 Proof.
@@ -463,26 +721,53 @@ Proof.
   apply in_seq in Hi. apply memb_false in Hm. exists i. split; [lia|exact Hm].
 Qed.
 
-(* a task that is not done can step, unless it waits for the lock that somebody holds *)
-Lemma enabled_or_blocked : forall n k s t, Inv n k s -> pcs s t <> PDone ->
-  (exists st s', step VCorrect n s (t, st) = Some s') \/ (pcs s t = PLock /\ exists h, lock s = Some h).
+Ltac fire st Ep := left; exists st; unfold step; cbn [fst snd outer_locked]; rewrite Ep; eexists; reflexivity.
+
+(* a task that is not done can step, unless it waits for a lock that somebody holds *)
+Lemma enabled_or_blocked : forall n k miss s t, Inv n k miss s -> pcs s t <> PDone ->
+  (exists st s', step VCorrect n s (t, st) = Some s') \/
+  (pcs s t = POuterLock /\ exists h, olock s = Some h) \/
+  ((pcs s t = PLock \/ pcs s t = PComplete) /\ exists h, lock s = Some h).
 Proof.
-  intros n k s t I Hnd.
-  destruct (pcs s t) as [| | | | |done| | | |] eqn:Ep.
-  - left. exists SCheckFlag. unfold step; cbn [fst snd]; rewrite Ep. eexists. reflexivity.
-  - left. exists SLoadResult. unfold step; cbn [fst snd]; rewrite Ep. eexists. reflexivity.
+  intros n k miss s t I Hnd.
+  destruct (pcs s t) as [| | | | | | |done| | | | |done| | | |] eqn:Ep.
+  - fire SStart Ep.
+  - destruct (olock s) as [h|] eqn:El.
+    + right; left. split; [reflexivity|]. now exists h.
+    + left. exists SOuterLock. unfold step; cbn [fst snd outer_locked]. rewrite Ep, El. eexists. reflexivity.
+  - fire SCheckFlag Ep.
+  - fire SLoadResult Ep.
   - destruct (lock s) as [h|] eqn:El.
-    + right. split; [reflexivity|]. now exists h.
-    + left. exists SLock. unfold step; cbn [fst snd]; rewrite Ep, El. eexists. reflexivity.
-  - left. exists SRecheck. unfold step; cbn [fst snd]; rewrite Ep. eexists. reflexivity.
-  - left. exists SValidate. unfold step; cbn [fst snd]; rewrite Ep. eexists. reflexivity.
-  - destruct (all_done_false n done (proj1 (inv_restore _ _ _ I t done Ep))) as [i [Hi Hni]].
+    + right; right. split; [now left|]. now exists h.
+    + left. exists SLock. unfold step; cbn [fst snd]. rewrite Ep, El. eexists. reflexivity.
+  - fire SRecheck Ep.
+  - fire SValidate Ep.
+  - destruct (all_done_false n done (proj1 (inv_restore _ _ _ _ I t done Ep))) as [i [Hi Hni]].
     left. exists (SRestore i). unfold step; cbn [fst snd]; rewrite Ep.
-    apply Nat.ltb_lt in Hi. apply memb_false in Hni. rewrite Hi, Hni. cbn [andb negb]. eexists. reflexivity.
-  - left. exists SSetFlag. unfold step; cbn [fst snd]; rewrite Ep. eexists. reflexivity.
-  - left. exists SUnlock. unfold step; cbn [fst snd]; rewrite Ep. eexists. reflexivity.
-  - left. exists SRunCmd. unfold step; cbn [fst snd]; rewrite Ep. eexists. reflexivity.
+    apply Nat.ltb_lt in Hi. apply memb_false in Hni. rewrite Hi, Hni. cbn [andb negb].
+    destruct (missing s i); eexists; reflexivity.
+  - fire SSetFlag Ep.
+  - fire SUnlock Ep.
+  - fire SUnlock Ep.
+  - fire SRerunStart Ep.
+  - destruct (all_done_false n done (proj1 (inv_rerun _ _ _ _ I t done Ep))) as [i [Hi Hni]].
+    left. exists (SRerunWrite i). unfold step; cbn [fst snd]; rewrite Ep.
+    apply Nat.ltb_lt in Hi. apply memb_false in Hni. rewrite Hi, Hni. cbn [andb negb]. eexists; reflexivity.
+  - destruct (lock s) as [h|] eqn:El.
+    + right; right. split; [now right|]. now exists h.
+    + left. exists SComplete. unfold step; cbn [fst snd]. rewrite Ep, El. eexists. reflexivity.
+  - fire SOuterUnlock Ep.
+  - fire SRunCmd Ep.
   - contradiction.
+Qed.
+
+(* the registry's lock is only ever held by the holder of the outer lock: nobody waits for it *)
+Lemma inner_lock_free_for_outer_holder : forall n k miss s t h, Inv n k miss s ->
+  in_outer_region (pcs s t) = true -> in_locked_region (pcs s t) = false -> lock s = Some h -> False.
+Proof.
+  intros n k miss s t h I Ho Hl El. assert (Hh := inv_holder _ _ _ _ I h El).
+  assert (E : h = t) by (apply (excl _ _ _ s h t I); [now apply locked_outer|exact Ho]).
+  subst h. rewrite Hl in Hh. discriminate Hh.
 Qed.
 
 Lemma all_done_or_not : forall s k, (forall t, t < k -> pcs s t = PDone) \/ (exists t, t < k /\ pcs s t <> PDone).
@@ -497,18 +782,29 @@ Proof.
     + right. exists t. split; [lia|exact Hp].
 Qed.
 
-Lemma no_deadlock : forall n k s, reachable VCorrect n k s ->
+(* the holder of the outer lock can always step *)
+Lemma outer_holder_enabled : forall n k miss s h, Inv n k miss s -> olock s = Some h ->
+  exists st s', step VCorrect n s (h, st) = Some s'.
+Proof.
+  intros n k miss s h I Ho. assert (Hreg := inv_oholder _ _ _ _ I h Ho).
+  assert (Hh : pcs s h <> PDone) by (intros E; rewrite E in Hreg; discriminate Hreg).
+  destruct (enabled_or_blocked n k miss s h I Hh) as [Hen|[[Hp _]|[Hp [h' Hl]]]].
+  - exact Hen.
+  - rewrite Hp in Hreg. discriminate Hreg.
+  - exfalso. apply (inner_lock_free_for_outer_holder n k miss s h h' I Hreg); [|exact Hl].
+    destruct Hp as [Hp|Hp]; rewrite Hp; reflexivity.
+Qed.
+
+Lemma no_deadlock : forall n k miss s, reachable VCorrect n k miss s ->
   all_tasks_done k s \/ exists e s', step VCorrect n s e = Some s'.
 Proof.
-  intros n k s Hr. assert (I := inv_reachable n k s Hr).
+  intros n k miss s Hr. assert (I := inv_reachable n k miss s Hr).
   destruct (all_done_or_not s k) as [Hall|[t [Ht Hp]]]; [now left|]. right.
-  destruct (enabled_or_blocked n k s t I Hp) as [(st & s' & Hs)|[Hpl [h Hl]]].
+  destruct (enabled_or_blocked n k miss s t I Hp) as [(st & s' & Hs)|[[Hpl [h Hl]]|[Hpl [h Hl]]]].
   - now exists (t, st), s'.
-  - assert (Hreg := inv_holder _ _ _ I h Hl).
-    assert (Hh : pcs s h <> PDone) by (intros E; rewrite E in Hreg; discriminate Hreg).
-    destruct (enabled_or_blocked n k s h I Hh) as [(st & s' & Hs)|[Hpl' _]].
-    + now exists (h, st), s'.
-    + rewrite Hpl' in Hreg. discriminate Hreg.
+  - destruct (outer_holder_enabled n k miss s h I Hl) as (st & s' & Hs). now exists (h, st), s'.
+  - exfalso. apply (inner_lock_free_for_outer_holder n k miss s t h I); [| |exact Hl];
+      destruct Hpl as [Hpl|Hpl]; rewrite Hpl; reflexivity.
 Qed.
 
 (* the measure *)
@@ -544,6 +840,12 @@ Lemma remaining_cons_lt : forall n i done, i < n -> ~ In i done ->
   length (remaining n (i :: done)) < length (remaining n done).
 Proof. intros n i done Hi Hnd. apply filter_cons_lt; [apply in_seq; lia|exact Hnd]. Qed.
 
+Lemma remaining_le : forall n done, length (remaining n done) <= n.
+Proof.
+  intros n done. unfold remaining. rewrite <- (seq_length n 0) at 2. generalize (seq 0 n). intros l.
+  induction l as [|a l IH]; [apply le_n|]. cbn [filter]. destruct (negb (memb a done)); cbn [length]; lia.
+Qed.
+
 Lemma sum_upd_lt : forall (g g' : nat -> nat) t l, (forall u, u <> t -> g' u = g u) -> g' t < g t ->
   NoDup l -> (In t l -> list_sum (map g' l) < list_sum (map g l)) /\ (~ In t l -> list_sum (map g' l) = list_sum (map g l)).
 Proof.
@@ -570,80 +872,78 @@ Proof.
   - apply in_seq. lia.
 Qed.
 
-Lemma step_decreases : forall n k s e s', Inv n k s -> step VCorrect n s e = Some s' -> measure n k s' < measure n k s.
+Lemma step_decreases : forall n k miss s e s', Inv n k miss s -> step VCorrect n s e = Some s' -> measure n k s' < measure n k s.
 Proof.
-  intros n k s [t st] s' I H.
+  intros n k miss s [t st] s' I H.
   assert (Ht : t < k).
   { destruct (Nat.lt_ge_cases t k) as [Hlt|Hge]; [exact Hlt|]. exfalso.
-    assert (Hd := inv_outside _ _ _ I t Hge). step_inv H; rewrite Hd in Hpc; discriminate Hpc. }
-  step_inv H; (eapply measure_upd_lt; [exact Ht|cbn [pcs set_pc]; reflexivity|rewrite Hpc; cbn [pc_measure]]).
-  - destruct (flag s); cbn [pc_measure]; lia.
-  - lia.
-  - lia.
-  - destruct (flag s); cbn [pc_measure]; lia.
+    assert (Hd := inv_outside _ _ _ _ I t Hge). step_inv H; rewrite Hd in Hpc; discriminate Hpc. }
+  step_inv H; (eapply measure_upd_lt; [exact Ht|sp; reflexivity|rewrite Hpc; cbn [pc_measure]]);
+    try lia; try (destruct (flag s); cbn [pc_measure]; lia).
   - destruct (all_done n []); cbn [pc_measure]; [lia|]. rewrite remaining_nil. lia.
   - assert (Hl := remaining_cons_lt n i0 done0 Hi0 Hnd0).
     destruct (all_done n (i0 :: done0)); cbn [pc_measure]; lia.
-  - lia.
-  - lia.
-  - lia.
+  - destruct (all_done n []); cbn [pc_measure]; [lia|]. rewrite remaining_nil. lia.
+  - assert (Hl := remaining_cons_lt n i0 done0 Hi0 Hnd0).
+    destruct (all_done n (i0 :: done0)); cbn [pc_measure]; lia.
 Qed.
 
-Lemma measure_init : forall n k, measure n k (init k) = k * (n + 8).
+Lemma measure_init : forall n k miss, measure n k (init k miss) = run_bound n k.
 Proof.
-  intros n k. unfold measure.
+  intros n k miss. unfold measure, run_bound.
   assert (H : forall l, (forall t, In t l -> t < k) ->
-            list_sum (map (fun t => pc_measure n (pcs (init k) t)) l) = length l * (n + 8)).
+            list_sum (map (fun t => pc_measure n (pcs (init k miss) t)) l) = length l * (2 * n + 14)).
   { intros l. induction l as [|a l IH]; intros Hl; [reflexivity|].
-    change (list_sum (map (fun t => pc_measure n (pcs (init k) t)) (a :: l)))
-      with (pc_measure n (pcs (init k) a) + list_sum (map (fun t => pc_measure n (pcs (init k) t)) l)).
+    change (list_sum (map (fun t => pc_measure n (pcs (init k miss) t)) (a :: l)))
+      with (pc_measure n (pcs (init k miss) a) + list_sum (map (fun t => pc_measure n (pcs (init k miss) t)) l)).
     rewrite IH by (intros t Ht; apply Hl; now right).
     assert (Ha : a < k) by (apply Hl; now left). cbn [init pcs]. apply Nat.ltb_lt in Ha. rewrite Ha.
     cbn [pc_measure length]. lia. }
   rewrite H by (intros t Ht; apply in_seq in Ht; lia). now rewrite seq_length.
 Qed.
 
-Lemma run_length : forall n k evs s s', Inv n k s -> run VCorrect n s evs = Some s' ->
+Lemma run_length : forall n k miss evs s s', Inv n k miss s -> run VCorrect n s evs = Some s' ->
   length evs + measure n k s' <= measure n k s.
 Proof.
-  intros n k evs. induction evs as [|e r IH]; intros s s' I H; cbn [run] in H.
+  intros n k miss evs. induction evs as [|e r IH]; intros s s' I H; cbn [run] in H.
   - injection H as <-. cbn [length]. lia.
   - destruct (step VCorrect n s e) as [s1|] eqn:E; [|discriminate H].
-    assert (Hd := step_decreases n k s e s1 I E). assert (I1 := inv_step n k s e s1 I E).
+    assert (Hd := step_decreases n k miss s e s1 I E). assert (I1 := inv_step n k miss s e s1 I E).
     specialize (IH s1 s' I1 H). cbn [length]. lia.
 Qed.
 
-Lemma run_bounded : forall n k evs s, run VCorrect n (init k) evs = Some s -> length evs <= k * (n + 8).
+Lemma run_bounded : forall n k miss evs s, run VCorrect n (init k miss) evs = Some s -> length evs <= run_bound n k.
 Proof.
-  intros n k evs s H. assert (Hl := run_length n k evs (init k) s (inv_init n k) H).
+  intros n k miss evs s H. assert (Hl := run_length n k miss evs (init k miss) s (inv_init n k miss) H).
   rewrite measure_init in Hl. lia.
 Qed.
 
 (* from every reachable state some continuation ends with every command run (and it cannot run for ever: run_bounded) *)
-Lemma can_finish : forall n k s, reachable VCorrect n k s ->
+Lemma can_finish : forall n k miss s, reachable VCorrect n k miss s ->
   exists evs s', run VCorrect n s evs = Some s' /\ all_tasks_done k s'.
 Proof.
-  intros n k s Hr. remember (measure n k s) as m eqn:Em.
+  intros n k miss s Hr. remember (measure n k s) as m eqn:Em.
   assert (Hm : measure n k s <= m) by lia. clear Em. revert s Hr Hm.
   induction m as [|m IH]; intros s Hr Hm.
-  - destruct (no_deadlock n k s Hr) as [Hd|(e & s1 & Hs)].
+  - destruct (no_deadlock n k miss s Hr) as [Hd|(e & s1 & Hs)].
     + exists [], s. now split.
-    + assert (Hd := step_decreases n k s e s1 (inv_reachable n k s Hr) Hs). lia.
-  - destruct (no_deadlock n k s Hr) as [Hd|(e & s1 & Hs)].
+    + assert (Hd := step_decreases n k miss s e s1 (inv_reachable n k miss s Hr) Hs). lia.
+  - destruct (no_deadlock n k miss s Hr) as [Hd|(e & s1 & Hs)].
     + exists [], s. now split.
-    + assert (Hd := step_decreases n k s e s1 (inv_reachable n k s Hr) Hs).
-      destruct (IH s1 (reachable_step _ n k s e s1 Hr Hs)) as (evs & s' & Hrun & Hall); [lia|].
+    + assert (Hd := step_decreases n k miss s e s1 (inv_reachable n k miss s Hr) Hs).
+      destruct (IH s1 (reachable_step _ n k miss s e s1 Hr Hs)) as (evs & s' & Hrun & Hall); [lia|].
       exists (e :: evs), s'. cbn [run]. rewrite Hs. now split.
 Qed.
 
-(* ------------------------------------------------------------------ 5: the two seeded orders are wrong, in the model too *)
+(* ------------------------------------------------------------------ 6: the orders that are wrong, in the model too *)
+(* up to the restore of the single output *)
+Definition into_restore (t : nat) : list event :=
+  [(t, SStart); (t, SOuterLock); (t, SCheckFlag); (t, SLoadResult); (t, SLock); (t, SRecheck); (t, SValidate)].
 (* dependant 0 is inside the restore of the single output when dependant 1 arrives *)
 Definition sched_flag_early : list event :=
-  [(0, SCheckFlag); (0, SLoadResult); (0, SLock); (0, SRecheck); (0, SValidate); (0, SSetFlag);
-   (1, SCheckFlag); (1, SRunCmd)].
+  into_restore 0 ++ [(0, SSetFlag); (1, SStart); (1, SOuterLock); (1, SCheckFlag); (1, SOuterUnlock); (1, SRunCmd)].
 Definition sched_requested_once : list event :=
-  [(0, SCheckFlag); (0, SLoadResult); (0, SLock); (0, SRecheck); (0, SValidate);
-   (1, SCheckFlag); (1, SRunCmd)].
+  into_restore 0 ++ [(1, SStart); (1, SRunCmd)].
 
 Lemma flag_early_refuted : exists evs, run_saw_stale VFlagEarly 1 2 evs = true.
 Proof. exists sched_flag_early. vm_compute. reflexivity. Qed.
@@ -651,92 +951,128 @@ Proof. exists sched_flag_early. vm_compute. reflexivity. Qed.
 Lemma requested_once_refuted : exists evs, run_saw_stale VRequestedOnce 1 2 evs = true.
 Proof. exists sched_requested_once. vm_compute. reflexivity. Qed.
 
-(* the same interleavings are not even schedules of the real order, or end with the command seeing current bytes *)
+(* the same interleavings are not even schedules of the real order *)
 Lemma seeded_schedules_harmless_for_real_order :
   run_saw_stale VCorrect 1 2 sched_flag_early = false /\ run_saw_stale VCorrect 1 2 sched_requested_once = false.
 Proof. split; vm_compute; reflexivity. Qed.
 
-(* ------------------------------------------------------------------ 6: non-vacuity *)
-Definition complete_and_current (n k : nat) (evs : list event) : bool :=
-  match run VCorrect n (init k) evs with
+(* C15-F1, the code before the outer lock: the single blob is lost, both dependants find d unrestorable *)
+Definition all_blobs_missing : nat -> bool := fun _ => true.
+Definition to_rerun (t : nat) : list event := into_restore t ++ [(t, SRestore 0); (t, SUnlock)].
+(* 0 has re-made d and starts its command while 1 has just started d's command again: 0 reads a torn file *)
+Definition sched_torn_read : list event :=
+  to_rerun 0 ++ [(0, SRerunStart)] ++ to_rerun 1 ++
+  [(0, SRerunWrite 0); (0, SComplete); (0, SOuterUnlock); (1, SRerunStart); (0, SRunCmd)].
+(* 1 starts d's command between 0's write and 0's WriteOutputs: the torn bytes go into the cache *)
+Definition sched_torn_cached : list event :=
+  to_rerun 0 ++ [(0, SRerunStart)] ++ to_rerun 1 ++ [(0, SRerunWrite 0); (1, SRerunStart); (0, SComplete)].
+
+Lemma no_outer_lock_refuted :
+  run_fault_summary VNoOuterLock 1 2 all_blobs_missing sched_torn_read = Some (true, false, 2) /\
+  run_fault_summary VNoOuterLock 1 2 all_blobs_missing sched_torn_cached = Some (false, true, 2).
+Proof. split; vm_compute; reflexivity. Qed.
+
+(* with the outer lock these are not schedules: 1 cannot pass OuterLock while 0 works on d *)
+Lemma no_outer_lock_schedules_blocked :
+  run_fault_summary VCorrect 1 2 all_blobs_missing sched_torn_read = None /\
+  run_fault_summary VCorrect 1 2 all_blobs_missing sched_torn_cached = None /\
+  run VCorrect 1 (init 2 all_blobs_missing) (to_rerun 0 ++ [(0, SRerunStart); (1, SStart); (1, SOuterLock)]) = None.
+Proof. repeat split; vm_compute; reflexivity. Qed.
+
+(* ------------------------------------------------------------------ 7: non-vacuity *)
+Definition complete_and_current (n k : nat) (miss : nat -> bool) (evs : list event) (n_restores n_reruns : nat) : bool :=
+  match run VCorrect n (init k miss) evs with
   | Some s => forallb (fun t => is_done (pcs s t)) (seq 0 k) && Nat.eqb (length (obs s)) k
-              && forallb (fun to => saw_all_current n (snd to)) (obs s) && Nat.eqb (length (restores s)) n
+              && forallb (fun to => saw_all_current n (snd to)) (obs s) && Nat.eqb (length (restores s)) n_restores
+              && Nat.eqb (length (reruns s)) n_reruns && forallb (fun to => saw_all_current n (snd to)) (wrote s)
+              && Nat.eqb (length (wrote s)) n_reruns
   | None => false
   end.
 
-(* 2 dependants, 2 outputs: 1 arrives while 0 restores, passes the unlocked check, waits for the lock, sees the flag *)
+(* 2 dependants, 2 outputs, no fault: 1 arrives while 0 restores, waits for the outer lock, sees the flag *)
 Definition sched_two_two : list event :=
-  [(0, SCheckFlag); (0, SLoadResult); (0, SLock); (0, SRecheck); (0, SValidate); (0, SRestore 1);
-   (1, SCheckFlag); (1, SLoadResult);
-   (0, SRestore 0); (0, SSetFlag); (0, SUnlock);
-   (1, SLock); (0, SRunCmd); (1, SRecheck); (1, SUnlock); (1, SRunCmd)].
+  into_restore 0 ++ [(0, SRestore 1); (1, SStart); (0, SRestore 0); (0, SSetFlag); (0, SUnlock); (0, SOuterUnlock);
+   (1, SOuterLock); (0, SRunCmd); (1, SCheckFlag); (1, SOuterUnlock); (1, SRunCmd)].
 
-Lemma depload_nonvacuous : complete_and_current 2 2 sched_two_two = true.
+Lemma depload_nonvacuous : complete_and_current 2 2 no_blob_missing sched_two_two 2 0 = true.
 Proof. vm_compute. reflexivity. Qed.
 
-(* while 0 holds the lock, 1 cannot take it *)
+(* 2 dependants, 2 outputs, the blob of output 1 is lost: 0 restores output 0, fails on output 1, re-runs d (1 waits at the
+   outer lock all the time), both commands see current outputs; exactly one re-run, whose bytes are cached current *)
+Definition only_blob_1_missing : nat -> bool := fun i => Nat.eqb i 1.
+Definition sched_fault : list event :=
+  into_restore 0 ++ [(0, SRestore 0); (1, SStart); (0, SRestore 1); (0, SUnlock); (0, SRerunStart); (0, SRerunWrite 1);
+   (0, SRerunWrite 0); (0, SComplete); (0, SOuterUnlock); (1, SOuterLock); (1, SCheckFlag); (0, SRunCmd);
+   (1, SOuterUnlock); (1, SRunCmd)].
+
+Lemma depload_fault_nonvacuous : complete_and_current 2 2 only_blob_1_missing sched_fault 1 1 = true.
+Proof. vm_compute. reflexivity. Qed.
+
+(* while 0 holds the outer lock, 1 cannot take it *)
 Lemma lock_blocks_nonvacuous :
-  run VCorrect 2 (init 2) [(0, SCheckFlag); (0, SLoadResult); (0, SLock); (1, SCheckFlag); (1, SLoadResult); (1, SLock)] = None.
+  run VCorrect 2 (init 2 no_blob_missing) [(0, SStart); (0, SOuterLock); (1, SStart); (1, SOuterLock)] = None.
 Proof. vm_compute. reflexivity. Qed.
 
 (* ------------------------------------------------------------------ the tie evaluates runs of the model *)
 Lemma first_auto_step : forall v n ts s s', first_auto v n s ts = Some s' -> exists e, step v n s e = Some s'.
 Proof.
   intros v n ts. induction ts as [|t r IH]; intros s s' H; cbn [first_auto] in H; [discriminate H|].
-  destruct (auto_step (pcs s t)) as [st|]; [|now apply IH].
+  destruct (auto_step n s (pcs s t)) as [st|]; [|now apply IH].
   destruct (step v n s (t, st)) as [s1|] eqn:E; [|now apply IH]. injection H as <-. now exists (t, st).
 Qed.
 
-Lemma settle_reachable : forall v n k ts fuel s, reachable v n k s -> reachable v n k (settle fuel v n ts s).
+Lemma settle_reachable : forall v n k miss ts fuel s, reachable v n k miss s -> reachable v n k miss (settle fuel v n ts s).
 Proof.
-  intros v n k ts fuel. induction fuel as [|f IH]; intros s Hr; cbn [settle]; [exact Hr|].
+  intros v n k miss ts fuel. induction fuel as [|f IH]; intros s Hr; cbn [settle]; [exact Hr|].
   destruct (first_auto v n s ts) as [s1|] eqn:E; [|exact Hr].
-  apply IH. destruct (first_auto_step v n ts s s1 E) as [e He]. exact (reachable_step v n k s e s1 Hr He).
+  apply IH. destruct (first_auto_step v n ts s s1 E) as [e He]. exact (reachable_step v n k miss s e s1 Hr He).
 Qed.
 
-Lemma do_token_reachable : forall v asc n k s tok, reachable v n k s -> reachable v n k (snd (do_token v asc n k s tok)).
+Lemma do_token_reachable : forall v asc n k miss s tok, reachable v n k miss s ->
+  reachable v n k miss (snd (do_token v asc n k s tok)).
 Proof.
-  intros v asc n k s tok Hr. unfold do_token.
-  destruct (token_event s (task_order asc k) tok) as [e|]; [|exact Hr].
+  intros v asc n k miss s tok Hr. unfold do_token.
+  destruct (token_event n s (task_order asc k) tok) as [e|]; [|exact Hr].
   destruct (step v n s e) as [s1|] eqn:E; [|exact Hr]. cbn [snd].
-  apply settle_reachable. exact (reachable_step v n k s e s1 Hr E).
+  apply settle_reachable. exact (reachable_step v n k miss s e s1 Hr E).
 Qed.
 
-Lemma replay_from_reachable : forall v asc n k toks s, reachable v n k s ->
-  reachable v n k (snd (replay_from v asc n k s toks)).
+Lemma replay_from_reachable : forall v asc n k miss toks s, reachable v n k miss s ->
+  reachable v n k miss (snd (replay_from v asc n k s toks)).
 Proof.
-  intros v asc n k toks. induction toks as [|tok r IH]; intros s Hr; cbn [replay_from snd]; [exact Hr|].
+  intros v asc n k miss toks. induction toks as [|tok r IH]; intros s Hr; cbn [replay_from snd]; [exact Hr|].
   apply IH. now apply do_token_reachable.
 Qed.
 
-Lemma replay_state_reachable : forall v asc n k toks,
-  reachable v n k (snd (replay_from v asc n k (init k) toks)).
-Proof. intros v asc n k toks. apply replay_from_reachable. now exists []. Qed.
+Lemma replay_state_reachable : forall v asc n k miss toks,
+  reachable v n k miss (snd (replay_from v asc n k (init k miss) toks)).
+Proof. intros v asc n k miss toks. apply replay_from_reachable. now exists []. Qed.
 
 (* the fuel of [settle] is enough: afterwards no step that needs no token is enabled *)
-Lemma settle_quiescent : forall n k ts fuel s, Inv n k s -> measure n k s <= fuel ->
+Lemma settle_quiescent : forall n k miss ts fuel s, Inv n k miss s -> measure n k s <= fuel ->
   first_auto VCorrect n (settle fuel VCorrect n ts s) ts = None.
 Proof.
-  intros n k ts fuel. induction fuel as [|f IH]; intros s I Hm; cbn [settle].
+  intros n k miss ts fuel. induction fuel as [|f IH]; intros s I Hm; cbn [settle].
   - destruct (first_auto VCorrect n s ts) as [s1|] eqn:E; [|reflexivity].
-    destruct (first_auto_step _ n ts s s1 E) as [e He]. assert (Hd := step_decreases n k s e s1 I He). lia.
+    destruct (first_auto_step _ n ts s s1 E) as [e He]. assert (Hd := step_decreases n k miss s e s1 I He). lia.
   - destruct (first_auto VCorrect n s ts) as [s1|] eqn:E; [|exact E].
-    destruct (first_auto_step _ n ts s s1 E) as [e He]. assert (Hd := step_decreases n k s e s1 I He).
-    apply IH; [exact (inv_step n k s e s1 I He)|lia].
+    destruct (first_auto_step _ n ts s s1 E) as [e He]. assert (Hd := step_decreases n k miss s e s1 I He).
+    apply IH; [exact (inv_step n k miss s e s1 I He)|lia].
 Qed.
 
-Lemma measure_le_init : forall n k s, reachable VCorrect n k s -> measure n k s <= k * (n + 8).
+Lemma measure_le_init : forall n k miss s, reachable VCorrect n k miss s -> measure n k s <= run_bound n k.
 Proof.
-  intros n k s [evs H]. assert (Hl := run_length n k evs (init k) s (inv_init n k) H). rewrite measure_init in Hl. lia.
+  intros n k miss s [evs H]. assert (Hl := run_length n k miss evs (init k miss) s (inv_init n k miss) H).
+  rewrite measure_init in Hl. lia.
 Qed.
 
-Lemma do_token_quiescent : forall asc n k s tok, reachable VCorrect n k s ->
+Lemma do_token_quiescent : forall asc n k miss s tok, reachable VCorrect n k miss s ->
   fst (do_token VCorrect asc n k s tok) = true ->
   first_auto VCorrect n (snd (do_token VCorrect asc n k s tok)) (task_order asc k) = None.
 Proof.
-  intros asc n k s tok Hr. unfold do_token.
-  destruct (token_event s (task_order asc k) tok) as [e|]; [|discriminate].
+  intros asc n k miss s tok Hr. unfold do_token.
+  destruct (token_event n s (task_order asc k) tok) as [e|]; [|discriminate].
   destruct (step VCorrect n s e) as [s1|] eqn:E; [|discriminate]. cbn [fst snd]. intros _.
-  assert (Hr1 := reachable_step _ n k s e s1 Hr E).
-  apply (settle_quiescent n k); [exact (inv_reachable n k s1 Hr1)|exact (measure_le_init n k s1 Hr1)].
+  assert (Hr1 := reachable_step _ n k miss s e s1 Hr E).
+  apply (settle_quiescent n k miss); [exact (inv_reachable n k miss s1 Hr1)|exact (measure_le_init n k miss s1 Hr1)].
 Qed.
